@@ -328,6 +328,29 @@ var Injectors = []injector{
 		}
 		return f
 	}},
+	{"second:response-body", func(r Rnd, tree *[]*Dir, ids *int) *Fault {
+		// a response that names its type on the keyword line and again through a Body child
+		cands, _ := collect(*tree, func(d, p *Dir) bool {
+			if !isCode(d.Kw) || len(d.Params) == 0 || !strings.Contains(d.Params[0].Text, "@") {
+				return false
+			}
+			for _, c := range d.Children {
+				if c.Kw == "Body" {
+					return false
+				}
+			}
+			return true
+		})
+		if len(cands) == 0 {
+			return nil
+		}
+		d := pick(r, cands)
+		*ids++
+		nd := &Dir{ID: *ids, Kw: "Body", Params: []Param{d.Params[0]}}
+		d.Children = append(d.Children, nd)
+		return &Fault{Class: "second:response-body", Msg: []string{"You cannot specify User Type in the response directive if it has a child Body directive", "the directive should not have parameters in this case"}, DirID: nd.ID,
+			AlsoIDs: []int{d.ID}} // the conflict is between the two directives: either one is "the offending directive"
+	}},
 	{"undefined:type-parameter", func(r Rnd, tree *[]*Dir, ids *int) *Fault {
 		cands, _ := collect(*tree, func(d, p *Dir) bool { return isMethodKw(d.Kw) })
 		if len(cands) == 0 {
